@@ -63,6 +63,11 @@ var payloads = []struct{ Name, S string }{
 	{"non-ascii", "é"},
 	{"ctrl-01", "\x01"},
 	{"close-script", "</script>"},
+	// a metacharacter next to non-ASCII text in one string: an escaper that goes rune by rune or byte
+	// by byte must keep the other characters whole (U+0122 and U+015C end in the bytes 0x22 '"' and 0x5C)
+	{"dquote+non-ascii", "\"é"},
+	{"newline+U+0122", "\nĢ"},
+	{"backslash+U+015C", "\\Ŝ"},
 }
 
 func prefixOf(s int) string { return "Mq" + string(sites[s].Letter) + "7" }
